@@ -1,4 +1,5 @@
 import ConjureVerif.Lemmas.Plain
+import ConjureVerif.Lemmas.Base64Canon
 import ConjureVerif.Gen.PlainSrc
 /-
 C12 — PLAIN text of every parameter value parses back to the same value.
@@ -88,6 +89,20 @@ def Bytes (bs : List Nat) : Prop := ∀ b ∈ bs, b < 256
 /-- binary: padded standard Base64 decodes back to the same bytes -/
 theorem C12_roundtrip_binary (bs : List Nat) (h : Bytes bs) : binParse (binText bs) = some bs :=
   Base64.decode_encode bs h
+
+/-- binary, the other direction: the parser accepts only the text `binText` writes — whatever it accepts is
+    the canonical spelling of the bytes it returns (canonical padding, zero trailing bits), and those are bytes -/
+theorem C12_binary_parse_is_canonical (s bs : List Nat) (h : binParse s = some bs) :
+    binText bs = s ∧ Bytes bs :=
+  Base64.encode_decode s bs h
+
+/-- no two texts parse to the same binary value -/
+theorem C12_binary_parse_injective (s t bs : List Nat) (hs : binParse s = some bs) (ht : binParse t = some bs) :
+    s = t :=
+  Base64.decode_injective s t bs hs ht
+
+/-- the premises are met by a non-trivial text, and a text with non-zero trailing bits is refused -/
+example : binParse [65, 81, 73, 61] = some [1, 2] ∧ binParse [65, 81, 74, 61] = none := by decide
 
 theorem mem_of_mem_take {l : List Nat} {n : Nat} {x : Nat} (h : x ∈ l.take n) : x ∈ l :=
   List.mem_of_mem_take h
